@@ -350,7 +350,9 @@ theorem gen_Opinion_abduce_eq :
 
 /- unlabelled `Product2` (`Opinion<MArr2<V, D0, D1>, V>`): the joint domain is flattened row-major, the
     multi-index `d` of the Rust text is the flat index and `d[0]`, `d[1]` are `(idx2 d).1`, `(idx2 d).2`;
-    `MArr2::product2` is `outer2`; `Opinion::new` validates (panic ≙ error). -/
+    `MArr2::product2` is `outer2`; `Opinion::new` validates (panic ≙ error).  Since repair b817f74 the closure of
+    `from_fn` is the block `{ let b = p[d] - a[d] * u; if b < V::zero() { V::zero() } else { b } }`, generated and modelled
+    literally (a `let` and an `if` inside `Vector.ofFn`); proofs unchanged. -/
 theorem gen_product2_eq : @SLV.Gen.Mul.product2 = @SLV.product2U := by
   funext α _ n0 n1 w0 w1
   unfold SLV.Gen.Mul.product2 SLV.product2U SLV.product2Raw SLV.prodCand2
@@ -374,7 +376,9 @@ theorem gen_Simplex1d_into_opinion_eq : @SLV.Gen.Mul.Simplex1d_into_opinion = @S
 /- labelled `Product2` (`OpinionD2`): `product2_iter(&x, &y)` yields the entries of `outer2 x y` in row-major
     order, `izip!` / `zip` pair entries of equal flat index; `Opinion::normalized` renormalises the base rate.
     The quotients `r = b / a` are lazily mapped iterators (generated as the tables of their items), `iproduct!(r0, r1)`
-    runs over them in the same row-major order: the item of flat index `k` is `(r0[(idx2 k).1], r1[(idx2 k).2])`. -/
+    runs over them in the same row-major order: the item of flat index `k` is `(r0[(idx2 k).1], r1[(idx2 k).2])`.
+    Since repair b817f74 the closure `|(p, &a)| { let b = p - a * u; if b < V::zero() { V::zero() } else { b } }` over
+    `p_iter.zip(&a)` carries the same clamp (the closure parameter `a` shadows the table `a` inside the block only). -/
 theorem gen_product2_labeled_eq : @SLV.Gen.Mul.product2_labeled = @SLV.product2L := by
   funext α _ n0 n1 w0 w1
   unfold SLV.Gen.Mul.product2_labeled SLV.product2L SLV.product2Raw SLV.prodCand2
